@@ -13,8 +13,8 @@ JOBS = [
   Job("c07.calc_bits.loop", TU, "h_calc_bits", loops=L_CALC, loop_counts={"calc_bits": 1},
       fuc=["calc_bits"], timeout=120),
   Job("c07.calc_bits.unwind", TU, "h_calc_bits", cbmc=["--unwind", "65", "--unwinding-assertions"],
-      fuc=["calc_bits"], timeout=120, note="complete: the loop is bounded by the width of long (65 unwindings, unwinding assertion on)"),
-  Job("c07.init", TU, "h_init", replace=["calc_bits/calc_bits_contract"], fuc=["myth_join_counter_init_body"], timeout=120),
+      fuc=["calc_bits"], timeout=120, native=True, note="complete: the loop is bounded by the width of long (65 unwindings, unwinding assertion on)"),
+  Job("c07.init", TU, "h_init", replace=["calc_bits/calc_bits_contract"], fuc=["myth_join_counter_init_body"], timeout=120, native=True),
   Job("c07.dec", TU, "h_dec", loops=L_DEC, loop_counts={"myth_join_counter_dec_body": 1},
       replace=RG_REPL + ["myth_wake_many_from_queue/wake_many_q_contract"],
       fuc=["myth_join_counter_dec_body"], timeout=180, read_hooks=[("state", "myth_verif_rd")]),
